@@ -283,6 +283,14 @@ def canon(v):
     return ["?", type(v).__name__, repr(v)[:80]]
 
 
+def canon_row(r):
+    """A row orso delivered, cell by cell.  Something that is not a row at all (e.g. `None` handed out as a row)
+    becomes a one-cell row describing it - to be judged by the oracle, not to raise inside the harness."""
+    if isinstance(r, (str, bytes)) or not hasattr(r, "__iter__"):
+        return [["?", "not a row", type(r).__name__, repr(r)[:40]]]
+    return [canon(c) for c in r]
+
+
 def _isnan(x):
     return isinstance(x, float) and x != x
 
@@ -432,28 +440,61 @@ def load_shadow():
     return _SHADOW
 
 
+# iterables of tables that are neither a generator object, a list nor a tuple: the statement speaks of "a sequence
+# of tables", from_arrow's docstring of "an iterable"; what happens to them is observed and counted, not demanded
+OTHER_ITERABLES = {
+    "list_iterator": lambda ts: iter(list(ts)),
+    "map": lambda ts: map(lambda t: t, ts),
+    "chain": lambda ts: itertools.chain(ts[:1], ts[1:]),
+    "deque": lambda ts: __import__("collections").deque(ts),
+    "dict_values": lambda ts: {i: t for i, t in enumerate(ts)}.values(),
+}
+
+
+def _same_tables(handed, truth):
+    """Does the container that was handed to orso still hold exactly the tables it held (same objects, same order)?"""
+    return len(handed) == len(truth) and all(a is b for a, b in zip(handed, truth))
+
+
 def run_iter_impl(case, tables, process_table=None):
     """-> dict(rows, names, nullable) or dict(raised=...).  `process_table`: run with this function in
-    place of the compiled one (the transcription of the .pyx source)."""
+    place of the compiled one (the transcription of the .pyx source).
+
+    Nothing the harness keeps is handed to orso: the list orso receives is a private copy (`handed`), and
+    after the call it is compared with the harness's own tuple of tables - a conversion must not modify its
+    argument (`arg_mutated` in the result is judged by the oracle like any other output)."""
+    truth = tuple(tables)
+    handed = list(truth)
+    out = _run_iter_impl(case, truth, handed, process_table)
+    if not _same_tables(handed, truth):
+        out["arg_mutated"] = {"tables_given": len(truth), "tables_left_in_the_list": len(handed)}
+    return out
+
+
+def _run_iter_impl(case, truth, handed, process_table):
     import orso.converters as oc
     from orso import DataFrame
 
     via = case.get("via", "from_arrow")
     size = case.get("size")
-    arg = tables
+    arg = handed
     if via == "generator":
-        arg = (t for t in tables)
+        arg = (t for t in truth)
     elif via == "tuple":
-        arg = tuple(tables)
+        arg = truth
     elif via == "single":
-        arg = tables[0]
+        arg = truth[0]
+    elif via in OTHER_ITERABLES:
+        arg = OTHER_ITERABLES[via](truth)
     saved = oc.process_table
     if process_table is not None:
         oc.process_table = process_table
+    # an iterator that never stops is a wrong row count, not a hanging harness
+    cap = sum(t.num_rows for t in truth) + 8
     try:
         if via == "DataFrame":
             df = DataFrame.from_arrow(arg)
-            rows = [[canon(c) for c in r] for r in df]
+            rows = [canon_row(r) for r in df]
             schema = df.schema
             names = list(df.column_names) if schema else []
         elif via == "DataFrame.arrow":
@@ -472,17 +513,17 @@ def run_iter_impl(case, tables, process_table=None):
         elif via == "iterator":
             # `_RowsIterator` driven directly with an explicit batch size and limit (the way from_arrow
             # builds it), so that every batch size above and below the table lengths is exercised cheaply
-            it0, schema = oc.from_arrow(list(tables))
+            it0, schema = oc.from_arrow(handed)
             try:
-                it = type(it0)(tables=iter(list(tables)), row_factory=it0.row_factory, batch_size=case["batch"],
+                it = type(it0)(tables=iter(list(truth)), row_factory=it0.row_factory, batch_size=case["batch"],
                                max_size=float("inf") if size is None else size)
             except (TypeError, AttributeError) as e:
                 return {"unavailable": "%s: %s" % (type(e).__name__, str(e)[:120])}
-            rows = [[canon(c) for c in r] for r in it]
+            rows = [canon_row(r) for r in itertools.islice(it, cap)]
             names = list(schema.column_names) if schema else []
         else:
             it, schema = oc.from_arrow(arg, size) if size is not None else oc.from_arrow(arg)
-            rows = [[canon(c) for c in r] for r in it]
+            rows = [canon_row(r) for r in itertools.islice(it, cap)]
             names = list(schema.column_names) if schema else []
         nullable = [bool(c.nullable) for c in schema.columns] if schema else []
         return {"rows": rows, "names": names, "nullable": nullable,
@@ -512,9 +553,24 @@ def mirror_rows(all_rows, size):
     return all_rows if size is None else all_rows[:size]
 
 
+CLAUSE_MUTATED = "a conversion modified the list of tables it was given"
+CLAUSE_LATER = "a later conversion of the same tables does not return one row per Arrow row, in order, cut to its size"
+
+
 def iter_oracle(case, tables, out):
     """The property on the implementation's own output.  Returns a list of (clause, detail).
-    Side channel: out["obs"] collects observations that are counted, not demanded."""
+    Side channel: out["obs"] collects observations that are counted, not demanded.
+
+    A conversion reads its argument: the list of tables the caller passed must hold the same tables afterwards
+    (otherwise the *next* conversion of that list - another size, `DataFrame.from_arrow` after
+    `converters.from_arrow`, a retry - no longer returns one row per Arrow row)."""
+    fails = _iter_oracle(case, tables, out)
+    if "arg_mutated" in out:
+        fails = fails + [(CLAUSE_MUTATED, dict(out["arg_mutated"], via=case.get("via", "from_arrow")))]
+    return fails
+
+
+def _iter_oracle(case, tables, out):
     obs = out.setdefault("obs", [])
     cols = case["cols"]
     if "cols_by_table" in case:
@@ -530,6 +586,11 @@ def iter_oracle(case, tables, out):
                        + (",schema-of-first-table" if first else ",other-schema"))
         return []
     rejected = [c["type"] for c in cols if c["type"] in REJECTED_TYPES]
+    if case.get("via") in OTHER_ITERABLES:
+        if "raised" in out:
+            obs.append("other-iterable:%s:rejected:%s" % (case["via"], out["raised"].split(":")[0]))
+            return []
+        obs.append("other-iterable:%s:accepted" % case["via"])  # …and then judged like any other conversion
     if "raised" in out:
         if rejected and out["raised"].startswith("ValueError: Unable to map"):
             obs.append("ext-rejected:" + rejected[0])  # no entry in arrow_type_map (see the `field` cases)
@@ -543,6 +604,8 @@ def iter_oracle(case, tables, out):
         return []
     size = case.get("size")
     exp = mirror_rows(expected_rows_of(tables), size)
+    if case.get("read") is not None:  # a conversion of a `reuse` case that is read only this far
+        exp = exp[:case["read"]]
     got = out["rows"]
     fails = []
     lazy_arrow = case.get("via") == "DataFrame.arrow"
@@ -554,13 +617,20 @@ def iter_oracle(case, tables, out):
     for ti, t in enumerate(tables):
         origin += [ti] * t.num_rows
     seen = set()
+    # `from_arrow(...).arrow(size)`: the cells went through pandas and back into pyarrow's type inference, which
+    # the statement does not speak about - except where nothing can be re-typed on the way: an int64 column
+    # without a null (the row id of most cases), text, booleans, bytes.  Those are demanded (a conversion that
+    # returns the right *number* of rows but other rows must not pass).
+    lazy_exact = {j for j, col in enumerate(cols)
+                  if (col["type"] == "int64" and not any(t.column(j).null_count for t in tables))
+                  or col["type"] in ("string", "bool", "binary")} if lazy_arrow else set()
     for i, (e, g) in enumerate(zip(exp, got)):
         if len(g) != len(e):
             fails.append(("row width differs", {"row": i}))
             break
         for j, (a, b) in enumerate(zip(e, g)):
             if not cell_ok(a, b):
-                if lazy_arrow:
+                if lazy_arrow and j not in lazy_exact:
                     obs.append("lazy-arrow-cell-differs:" + cols[j]["type"].split("(")[0].split("[")[0])
                     continue
                 if cols[j]["type"] in EXT_TYPES:
@@ -611,11 +681,16 @@ def iter_model_line(case, tables):
             pos += len(ch)
         enc_tables.append(chunks)
     if case.get("via") == "DataFrame.arrow":
-        # from_arrow (no size) then arrow(size): the rows of all tables, then to_arrow's limit
+        # DataFrame.from_arrow(tables) (lazily backed, no size) then arrow(size): the `seq` op with that one call
         names = list(tables[0].column_names)
-        return "C11 roundtrip " + wire.line(names, [r for t in enc_tables for ch in t for r in ch], case.get("size"))
+        return "C11 seq " + wire.line(names, "arrow", enc_tables, [["arrow", case.get("size")]])
     if case.get("via") == "iterator":
         return "C11 iterb " + wire.line(enc_tables, case.get("size"), case["batch"])
+    shape = {"from_arrow": "list", "DataFrame": "list", "tuple": "tuple", "generator": "generator",
+             "single": "single"}.get(case.get("via", "from_arrow"))
+    if shape is not None:
+        # the shape of the argument goes to the model too: from_arrow's input dispatch is generated from the source
+        return "C11 iter " + wire.line(enc_tables, case.get("size"), shape)
     return "C11 iter " + wire.line(enc_tables, case.get("size"))
 
 
@@ -677,7 +752,7 @@ def run_roundtrip_impl(case):
             df = DataFrame(rows=list(rows), schema=names)
         table = df.arrow() if size is None else df.arrow(size)
         back = DataFrame.from_arrow(table)
-        got = [[canon(c) for c in r] for r in back]
+        got = [canon_row(r) for r in back]
         return {"rows": got, "names": list(back.column_names), "arrow_names": list(table.column_names),
                 "arrow_rows": table.num_rows,
                 "null_cols": [table.column(j).null_count > 0 for j in range(table.num_columns)]}, rows
@@ -749,7 +824,7 @@ def seq_frame(case, tables):
 
 
 def _canon_rows(rows):
-    return [[canon(c) for c in r] for r in rows]
+    return [canon_row(r) for r in rows]
 
 
 def run_seq_impl(case, tables):
@@ -886,7 +961,8 @@ def seq_model_ops(case):
     for op in case["ops"]:
         k = op[0]
         if k in ("arrow", "pandas"):
-            out.append(["arrow", op[1]])
+            # (`pandas(size)` reaches to_arrow through three glue sites whose argument expressions are generated)
+            out.append([k, op[1]])
         elif k in SEQ_OBSERVERS:
             out.append(["observe"])
         elif k == "head":
@@ -1045,6 +1121,166 @@ def seq_agrees(case, outs, mouts, mfinal):
     return True
 
 
+# ---- one list / tuple / table converted more than once (`reuse`)
+
+REUSE_CONTAINERS = ("list", "tuple", "single")
+REUSE_VIAS = ("from_arrow", "DataFrame")
+REUSE_ORDERS = ("sequential", "interleaved")
+# after an exact int64 row id (kinds whose cells come back exactly, so that every conversion can be judged cell by cell)
+REUSE_COLTYPES = ("string", "bool", "float64", "binary", "decimal128(10,2)", "decimal128(10,0)", "decimal128(38,0)")
+
+
+def reuse_args(case):
+    """The argument objects of a `reuse` case as case-like dicts: the tables of the case and, optionally, a
+    `second` set of tables (typically with the same column names and another typing / nullability)."""
+    return [case] + ([case["second"]] if case.get("second") else [])
+
+
+def reuse_conv(cv):
+    """[via, size, read] or [via, size, read, which argument] -> (via, size, read, which)"""
+    return cv[0], cv[1], cv[2], (cv[3] if len(cv) > 3 else 0)
+
+
+def build_reuse_tables(case):
+    return [[mk_table(a["cols"], chunks) for chunks in a["tables"]] for a in reuse_args(case)]
+
+
+def run_reuse_impl(case, table_sets):
+    """ONE argument object (the caller's list / tuple of tables, or a single table) - or two of them - converted
+    several times: `convs` = [[via, size, read(, which)]] - `converters.from_arrow(arg, size)` or
+    `DataFrame.from_arrow(arg)`, read to the end (`read` None) or only `read` rows and then abandoned.
+    `sequential`: each conversion is read before the next is started; `interleaved`: all are started, then their
+    rows are drawn in turn, one at a time.
+    -> {"convs": [per conversion: rows/names/nullable or raised], "arg_mutated"?: …}"""
+    import orso.converters as oc
+    from orso import DataFrame
+
+    cont = case["container"]
+    truths = [tuple(ts) for ts in table_sets]
+    handeds = [list(t) for t in truths]
+    args = [h if cont == "list" else t if cont == "tuple" else t[0] for h, t in zip(handeds, truths)]
+    convs = [reuse_conv(cv) for cv in case["convs"]]
+    outs = [{"rows": [], "names": [], "nullable": [], "coltypes": []} for _ in convs]
+    cap = max(sum(t.num_rows for t in truth) for truth in truths) + 8
+    its = [None] * len(convs)
+
+    def start(i):
+        via, size, _, which = convs[i]
+        arg = args[which]
+        try:
+            if via == "DataFrame":
+                df = DataFrame.from_arrow(arg)
+                schema = df.schema
+                its[i] = ("frame", df)
+            else:
+                it, schema = oc.from_arrow(arg, size) if size is not None else oc.from_arrow(arg)
+                its[i] = ("it", iter(it))
+            outs[i]["names"] = list(schema.column_names) if schema else []
+            outs[i]["nullable"] = [bool(c.nullable) for c in schema.columns] if schema else []
+            outs[i]["coltypes"] = [col_enc(c)[1:5] for c in schema.columns] if schema else []
+        except InfraError:
+            raise
+        except Exception as e:
+            outs[i] = {"raised": "%s: %s" % (type(e).__name__, str(e)[:200])}
+            its[i] = None
+
+    def draw(i):
+        """One more row of conversion i; False when it is finished (exhausted, read far enough, or raised)."""
+        if its[i] is None or "raised" in outs[i]:
+            return False
+        read = convs[i][2]
+        if read is not None and len(outs[i]["rows"]) >= read:
+            return False
+        try:
+            if its[i][0] == "frame":
+                its[i] = ("it", iter(its[i][1]))  # DataFrame.__iter__ (materialises the frame)
+            r = next(its[i][1], _END)
+        except InfraError:
+            raise
+        except Exception as e:
+            outs[i] = {"raised": "%s: %s" % (type(e).__name__, str(e)[:200])}
+            return False
+        if r is _END:
+            its[i] = None
+            return False
+        outs[i]["rows"].append(canon_row(r))
+        return len(outs[i]["rows"]) < cap  # (an iterator that never stops: a wrong row count, not a hanging harness)
+
+    n = len(convs)
+    if case.get("order", "sequential") == "interleaved":
+        for i in range(n):
+            start(i)
+        live = list(range(n))
+        while live:
+            live = [i for i in live if draw(i)]
+    else:
+        for i in range(n):
+            start(i)
+            while draw(i):
+                pass
+    out = {"convs": outs}
+    for k, (handed, truth) in enumerate(zip(handeds, truths)):
+        if not _same_tables(handed, truth) and "arg_mutated" not in out:
+            out["arg_mutated"] = {"argument": k, "tables_given": len(truth), "tables_left_in_the_list": len(handed),
+                                  "same_objects": [a is b for a, b in zip(handed, truth)]}
+    return out
+
+
+_END = object()
+
+
+def reuse_expected(case, table_sets):
+    """The specification, written out: every conversion returns the Arrow rows of all tables of *its* argument,
+    cut to its own size, as far as it is read - whatever was converted before it or is being read beside it."""
+    all_rows = [expected_rows_of(ts) for ts in table_sets]
+    exp = []
+    for cv in case["convs"]:
+        via, size, read, which = reuse_conv(cv)
+        rows = mirror_rows(all_rows[which], size)
+        exp.append(rows if read is None else rows[:read])
+    return exp
+
+
+def reuse_oracle(case, table_sets, out):
+    fails = []
+    args = reuse_args(case)
+    for i, (cv, o) in enumerate(zip(case["convs"], out["convs"])):
+        via, size, read, which = reuse_conv(cv)
+        sub = {"kind": "iter", "cols": args[which]["cols"], "tables": args[which]["tables"], "size": size, "read": read,
+               "via": "DataFrame" if via == "DataFrame" else "from_arrow"}
+        for cl, d in _iter_oracle(sub, table_sets[which], o):
+            d = dict(d, conversion=i, conv=list(cv))
+            if i == 0:
+                fails.append((cl, d))       # the first conversion: the plain property
+            else:
+                fails.append(("%s (%s)" % (CLAUSE_LATER, cl), d))
+        for ob in o.get("obs", []):
+            out.setdefault("obs", []).append(ob)
+        if fails:
+            break
+    if "arg_mutated" in out:
+        fails.append((CLAUSE_MUTATED, dict(out["arg_mutated"], container=case["container"])))
+    return fails
+
+
+def _enc_table_set(tables):
+    enc_tables = []
+    for t in tables:
+        cols = [t.column(i) for i in range(t.num_columns)]
+        pys = [c.to_pylist() for c in cols]
+        chunks, pos = [], 0
+        for ch in (cols[0].chunks if cols else []):
+            chunks.append([[canon(p[i]) for p in pys] for i in range(pos, pos + len(ch))])
+            pos += len(ch)
+        enc_tables.append(chunks)
+    return enc_tables
+
+
+def reuse_model_line(case, table_sets):
+    return "C11 reuse " + wire.line([_enc_table_set(ts) for ts in table_sets],
+                                    [[which, size, read] for _, size, read, which in map(reuse_conv, case["convs"])])
+
+
 # ---- column typing
 
 
@@ -1073,6 +1309,11 @@ def col_enc(c):
             c.precision, c.scale, bool(c.nullable)]
 
 
+def _err_name(e):
+    """ValueError (pyarrow.ArrowInvalid is one) is the error the model speaks about; anything else keeps its name."""
+    return "ValueError" if isinstance(e, ValueError) else type(e).__name__
+
+
 def run_type_impl(case):
     from orso.schema import FlatColumn, RelationSchema, convert_arrow_schema_to_orso_schema, \
         convert_orso_schema_to_arrow_schema
@@ -1084,16 +1325,20 @@ def run_type_impl(case):
         kw["scale"] = case["s"]
     if case.get("elem") is not None:
         kw["element_type"] = _orso_type(case["elem"])
-    col = FlatColumn(name=case["name"], type=_orso_type(case["type"]), nullable=case["nullable"], **kw)
+    # whatever orso does - also raising something other than the documented ValueError, in the constructor
+    # or in either conversion - is an outcome to be judged, never a harness error
     try:
+        col = FlatColumn(name=case["name"], type=_orso_type(case["type"]), nullable=case["nullable"], **kw)
         if case.get("via") == "schema":
             sch = RelationSchema(name="t", columns=[col])
             f = convert_orso_schema_to_arrow_schema(sch).field(0)
         else:
             f = col.arrow_field
-    except ValueError as e:
-        return [case["name"], ["invalid"], True], ["err", "ValueError"]
-    fenc = [f.name, arrow_ty_enc(f.type), bool(f.nullable)]
+        fenc = [f.name, arrow_ty_enc(f.type), bool(f.nullable)]
+    except InfraError:
+        raise
+    except Exception as e:
+        return [case["name"], ["invalid"], True], ["err", _err_name(e)]
     try:
         if case.get("via") == "schema":
             import pyarrow
@@ -1101,9 +1346,11 @@ def run_type_impl(case):
             back = convert_arrow_schema_to_orso_schema(pyarrow.schema([f])).columns[0]
         else:
             back = FlatColumn.from_arrow(f)
-    except ValueError:
-        return fenc, ["err", "ValueError"]
-    return fenc, col_enc(back)
+        return fenc, col_enc(back)
+    except InfraError:
+        raise
+    except Exception as e:
+        return fenc, ["err", _err_name(e)]
 
 
 def type_model_line(case):
@@ -1160,17 +1407,17 @@ def run_schema_impl(case):
     from orso.schema import FlatColumn, RelationSchema, convert_arrow_schema_to_orso_schema, \
         convert_orso_schema_to_arrow_schema
 
-    cols = []
-    for c in case["cols"]:
-        kw = {}
-        if c.get("p") is not None:
-            kw["precision"] = c["p"]
-        if c.get("s") is not None:
-            kw["scale"] = c["s"]
-        if c.get("elem") is not None:
-            kw["element_type"] = _orso_type(c["elem"])
-        cols.append(FlatColumn(name=c["name"], type=_orso_type(c["type"]), nullable=c.get("nullable", True), **kw))
     try:
+        cols = []
+        for c in case["cols"]:
+            kw = {}
+            if c.get("p") is not None:
+                kw["precision"] = c["p"]
+            if c.get("s") is not None:
+                kw["scale"] = c["s"]
+            if c.get("elem") is not None:
+                kw["element_type"] = _orso_type(c["elem"])
+            cols.append(FlatColumn(name=c["name"], type=_orso_type(c["type"]), nullable=c.get("nullable", True), **kw))
         sch = RelationSchema(name="t", columns=cols)
         asch = convert_orso_schema_to_arrow_schema(sch, use_identities=True) if case.get("identities") \
             else convert_orso_schema_to_arrow_schema(sch)
@@ -1247,9 +1494,11 @@ def run_field_impl(case):
     try:
         c = FlatColumn.from_arrow(f, case.get("mappable", False)) if case.get("mappable") is not None \
             else FlatColumn.from_arrow(f)
-    except ValueError:
-        return ["err", "ValueError"], t
-    return col_enc(c), t
+        return col_enc(c), t
+    except InfraError:
+        raise
+    except Exception as e:
+        return ["err", _err_name(e)], t
 
 
 def field_model_line(case, t):
@@ -1283,7 +1532,10 @@ def valid_case(c):
                 return False
             if not isinstance(c["tables"], list) or c.get("via") == "single" and len(c["tables"]) != 1:
                 return False
-            if c.get("via", "from_arrow") not in ("from_arrow", "DataFrame", "generator", "tuple", "single", "DataFrame.arrow", "iterator"):
+            if c.get("via", "from_arrow") not in ("from_arrow", "DataFrame", "generator", "tuple", "single", "DataFrame.arrow",
+                                                  "iterator") + tuple(OTHER_ITERABLES):
+                return False
+            if c.get("via") in OTHER_ITERABLES and not c["tables"]:
                 return False
             if c.get("via") == "iterator" and (not c["tables"] or not isinstance(c.get("batch"), int) or c["batch"] < 1):
                 return False
@@ -1339,6 +1591,44 @@ def valid_case(c):
             if any(t.column(0).null_count for t in ts):
                 return False  # the first column is the exact row id
             return seq_mirror(expected_rows_of(ts), c)[2]
+        if k == "reuse":
+            if c.get("container") not in REUSE_CONTAINERS or c.get("order", "sequential") not in REUSE_ORDERS:
+                return False
+            if "second" in c and not (isinstance(c["second"], dict) and set(c["second"]) == {"cols", "tables"}):
+                return False
+            for a_ in reuse_args(c):
+                cols = a_["cols"]
+                if not cols or len({x["name"] for x in cols}) != len(cols) or not isinstance(a_["tables"], list):
+                    return False
+                if cols[0]["type"] != "int64" or any(x["type"] not in REUSE_COLTYPES for x in cols[1:]):
+                    return False
+                if c["container"] == "single" and len(a_["tables"]) != 1:
+                    return False
+            if not isinstance(c["convs"], list) or not 1 <= len(c["convs"]) <= 10:
+                return False
+            for cv in c["convs"]:
+                if not isinstance(cv, list) or len(cv) not in (3, 4) or cv[0] not in REUSE_VIAS:
+                    return False
+                for x in cv[1:3]:
+                    if not (x is None or (isinstance(x, int) and not isinstance(x, bool))):
+                        return False
+                if cv[1] is not None and (cv[1] < 1 or cv[0] == "DataFrame"):
+                    return False
+                if cv[2] is not None and cv[2] < 0:
+                    return False
+                which = reuse_conv(cv)[3]
+                if which not in (0, 1) or isinstance(which, bool) or which >= len(reuse_args(c)):
+                    return False
+                if cv[0] == "DataFrame" and not reuse_args(c)[which]["tables"]:
+                    return False  # no table, no schema: DataFrame.from_arrow([]) refuses (outside the quantifier)
+            for ts, a_ in zip(build_reuse_tables(c), reuse_args(c)):
+                for t in ts:
+                    if t.column(0).null_count:
+                        return False  # the first column is the exact row id
+                    for j, col in enumerate(a_["cols"]):
+                        if not col.get("nullable", True) and t.column(j).null_count:
+                            return False
+            return True
         if k == "roundtrip":
             if not c["types"]:
                 return False
@@ -1398,6 +1688,10 @@ def _impl_and_fails(case):
         tables = build_tables(case)
         outs = run_seq_impl(case, tables)
         return {"outputs": outs}, seq_oracle(case, tables, outs), seq_model_line(case, tables), ("seq", outs, tables)
+    if k == "reuse":
+        table_sets = build_reuse_tables(case)
+        out = run_reuse_impl(case, table_sets)
+        return out, reuse_oracle(case, table_sets, out), reuse_model_line(case, table_sets), ("reuse", out, table_sets)
     if k == "roundtrip":
         out, rows = run_roundtrip_impl(case)
         fails = roundtrip_oracle(case, out, rows)
@@ -1464,6 +1758,20 @@ def focus_candidates(case, detail):
         yield dict(cut, cols=SEQ_COLS, tables=[[seq_rows(sum(len(ch) for t in case["tables"] for ch in t))]])
         yield cut
         return
+    if case["kind"] == "reuse":
+        i = (detail or {}).get("conversion")
+        if case.get("second"):
+            one = {k_: v_ for k_, v_ in case.items() if k_ != "second"}
+            yield dict(one, convs=[cv[:3] for cv in case["convs"] if reuse_conv(cv)[3] == 0])
+            if i is not None:
+                yield dict(case, convs=case["convs"][:i + 1])
+            return
+        simple = dict(case, cols=SEQ_COLS, tables=[[seq_rows(sum(len(ch) for t in case["tables"] for ch in t))]])
+        if i is not None:
+            yield dict(simple, convs=case["convs"][:i + 1])
+            yield dict(case, convs=case["convs"][:i + 1])
+        yield simple
+        return
     j = (detail or {}).get("col")
     if j is None:
         return
@@ -1482,8 +1790,51 @@ def focus_candidates(case, detail):
         yield dict(case, names=[case["names"][j]], types=[case["types"][j]], rows=[[r[j]] for r in case["rows"]])
 
 
+def _decimal_cols(case):
+    if case.get("kind") == "type":
+        return [case] if case.get("type") == "DECIMAL" else []
+    if case.get("kind") == "schema":
+        return [x for x in case.get("cols", []) if x.get("type") == "DECIMAL"]
+    return []
+
+
+def _same_region(c0, c2):
+    """Shrinking stays out of the known findings' territory: a failure seen on DECIMAL columns of precision >= 1
+    is not minimised into precision 0 (open finding K06), where the replay would read like the known finding."""
+    d0 = _decimal_cols(c0)
+    if d0 and all((x.get("p") or 0) >= 1 for x in d0 if x.get("p") is not None):
+        return all((x.get("p") or 0) >= 1 for x in _decimal_cols(c2) if x.get("p") is not None)
+    return True
+
+
 def _norm(clause):
     return "".join(ch for ch in clause if not ch.isdigit())
+
+
+def _model_departs(ctx, case, msg):
+    """The Lean model differs from the written-out specification on a case on which the implementation
+    agrees with the specification.  On the unchanged tree that is a fault of the harness or the model (exit 2).
+    But the model is assembled from expressions generated from the source: after a source change that breaks
+    the property it follows the source away from the specification - also on inputs on which the changed
+    implementation happens to be right.  So the verdict is postponed to the end of the run: if the property was
+    seen to fail on the implementation the departure is recorded as a correspondence disagreement, if not it is
+    a harness error."""
+    if not hasattr(ctx, "_c11_departures"):
+        ctx._c11_departures = []
+    ctx._c11_departures.append((case, msg))
+    ctx.hit("model-departs-from-the-specification-where-the-implementation-does-not")
+
+
+def settle_departures(ctx):
+    deps = getattr(ctx, "_c11_departures", [])
+    if not deps:
+        return
+    ctx._c11_departures = []
+    if not ctx.violations:
+        raise InfraError(deps[0][1])
+    for case, msg in deps[:5]:
+        ctx.disagree(case, None, None, what="the model generated from the (changed) source departs from the specification "
+                                           "on an input on which the implementation does not: " + msg[:60])
 
 
 def evaluate(ctx, cases):
@@ -1506,20 +1857,26 @@ def evaluate(ctx, cases):
         if k in ("iter", "big"):
             _, got_rows, mirror = cmp_
             lazy_arrow = c.get("via") == "DataFrame.arrow"
-            mrows = m[2] if lazy_arrow else m[0]  # `roundtrip` op answers [names, num_rows, rows]
+            if lazy_arrow:  # the `seq` op answers [[["table", names, num_rows, rows]], rows held afterwards]
+                mt = m[0][0] if m[0] and m[0][0][0] == "table" else ["table", [], -1, []]
+                m = [mt[1], mt[2], mt[3]]
+            mrows = m[2] if lazy_arrow else m[0]
             if not wire.same(mrows, mirror) or (lazy_arrow and m[1] != len(mirror)):
                 # The model is assembled from expressions generated from the source, so it can follow a
                 # changed source away from the specification.  Model wrong while the implementation is
                 # right = a harness/model bug (exit 2); otherwise the source moved: report it.
-                impl_right = got_rows is not None and len(got_rows) == len(mirror) and not fails
+                # (implementation right = it returns the mirror's rows cell for cell - also in the columns whose
+                # cells the oracle only observes; otherwise nothing says the harness is the one at fault)
+                impl_right = got_rows is not None and not fails and _rows_same(mirror, got_rows)
                 if impl_right:
-                    raise InfraError("Lean iterator model disagrees with the Python mirror on %r" % (c,))
+                    _model_departs(ctx, c, "Lean iterator model disagrees with the Python mirror on %r" % (c,))
                 ctx.disagree(c, got_rows, mrows, what="the model generated from the source departs from the specification "
                                                      "(rows of all tables cut to size) on this input")
             nrows = len(mirror)
             nontrivial = nrows >= 1 and (k == "big" or len(c["tables"]) >= 1)
             model_view, impl_view = mrows, got_rows
-            observed_only = lazy_arrow or "cols_by_table" in c or got_rows is None and not fails or "unavailable" in out
+            observed_only = lazy_arrow or "cols_by_table" in c or got_rows is None and not fails or "unavailable" in out \
+                or (c.get("via") in OTHER_ITERABLES and got_rows is None)
             ext_cols = [j for j, col in enumerate(c.get("cols", [])) if col["type"] in EXT_TYPES] if k == "iter" else []
             agree = observed_only or (got_rows is not None and len(got_rows) == len(mrows) and all(
                 len(a) == len(b) and all(j in ext_cols or cell_ok(x, y) for j, (x, y) in enumerate(zip(a, b)))
@@ -1578,7 +1935,7 @@ def evaluate(ctx, cases):
                 # (the model is assembled from expressions generated from the source - `head`'s window
                 # arithmetic among them - so it can follow a changed source away from the specification)
                 if not fails and seq_impl_matches(c, outs, mirror):
-                    raise InfraError("Lean frame model disagrees with the Python mirror on %r" % (c,))
+                    _model_departs(ctx, c, "Lean frame model disagrees with the Python mirror on %r" % (c,))
                 ctx.disagree(c, outs, mouts, what="the model generated from the source departs from the specification "
                                                   "(every conversion returns the frame's rows cut to size) on this input")
             nontrivial = len(expected_rows_of(tables)) >= 1 and len(c["ops"]) >= 1
@@ -1601,14 +1958,44 @@ def evaluate(ctx, cases):
                     if lazy_now and op[0] in ("arrow", "pandas"):
                         ctx.hit("seq-conversion-materialises-lazy-frame" + ("-limited" if op[1] is not None and op[1] >= 0 else ""))
                     lazy_now = False
+        elif k == "reuse":
+            _, o, tables = cmp_
+            mirror = reuse_expected(c, tables)
+            if not wire.same(m[0], mirror):
+                impl_right = not fails and len(o["convs"]) == len(mirror) and all(
+                    "raised" not in x and _rows_same(mr, x["rows"]) for mr, x in zip(mirror, o["convs"]))
+                if impl_right:
+                    _model_departs(ctx, c, "Lean iterator model disagrees with the Python mirror on %r" % (c,))
+                ctx.disagree(c, o, m[0], what="the model generated from the source departs from the specification "
+                                              "(every conversion: rows of all tables cut to its size) on this input")
+            nontrivial = len(expected_rows_of(tables[0])) >= 1 and len(c["convs"]) >= 2
+            model_view, impl_view = m[0], o
+            agree = len(o["convs"]) == len(m[0]) and "arg_mutated" not in o and all(
+                "raised" not in x and _rows_same(mr, x["rows"]) for mr, x in zip(m[0], o["convs"]))
+            for ob in o.get("obs", []):
+                ctx.hit(ob)
+            ctx.hit("kind:reuse")
+            ctx.hit("reuse-container:" + c["container"])
+            ctx.hit("reuse-order:" + c.get("order", "sequential"))
+            ctx.hit("reuse-conversions:%d" % min(len(c["convs"]), 5))
+            ctx.hit("reuse-tables:%d" % min(len(c["tables"]), 4))
+            if any(cv[2] is not None for cv in c["convs"][:-1]):
+                ctx.hit("reuse-conversion-abandoned-part-way")
+            if len({str(cv[1]) for cv in c["convs"]}) >= 2:
+                ctx.hit("reuse-conversions-with-different-sizes")
+            if len({cv[0] for cv in c["convs"]}) >= 2:
+                ctx.hit("reuse-from_arrow-and-DataFrame.from_arrow-on-one-argument")
+            if c.get("second"):
+                same_names = [x["name"] for x in c["cols"]] == [x["name"] for x in c["second"]["cols"]]
+                ctx.hit("reuse-two-arguments" + ("-same-column-names-other-typing" if same_names else ""))
         elif k == "roundtrip":
             _, o, rows = cmp_
             size = c.get("size")
             mirror = [[canon(x) for x in r] for r in (rows if size is None else rows[:size])]
             if not wire.same(m[2], mirror) or m[0] != list(c["names"]):
-                impl_right = "raised" not in o and not fails
+                impl_right = "raised" not in o and not fails and _rows_same(mirror, o["rows"])
                 if impl_right:
-                    raise InfraError("Lean to_arrow/from_arrow model disagrees with the Python mirror on %r" % (c,))
+                    _model_departs(ctx, c, "Lean to_arrow/from_arrow model disagrees with the Python mirror on %r" % (c,))
                 ctx.disagree(c, o, {"names": m[0], "rows": m[2]},
                              what="the model generated from the source departs from the specification (rows[:size]) on this input")
             nontrivial = len(rows) >= 1
@@ -1673,7 +2060,7 @@ def evaluate(ctx, cases):
             sig = _norm(cl)
 
             def still(c2):
-                if not valid_case(c2):
+                if not valid_case(c2) or not _same_region(c, c2):
                     return False
                 try:
                     _, f2, _, _ = _impl_and_fails(c2)
@@ -1717,8 +2104,15 @@ def evaluate(ctx, cases):
                         tries[0] += 1
                         return fails_standalone(c2, sig) is not False
                     c_min = shrink(c, still_alone, budget=120)
-            out2, f2, _, _ = _impl_and_fails(c_min)
-            hit = [(x, dd) for x, dd in f2 if _norm(x) == sig and not _is_known(ctx, c_min, x, dd)] or [(cl, d)]
+            try:
+                out2, f2, _, _ = _impl_and_fails(c_min)
+            except InfraError:
+                raise
+            except Exception:  # (the minimised case stopped being runnable: report the case that was seen to fail)
+                c_min, out2, f2 = c, impl_view, []
+            hit = [(x, dd) for x, dd in f2 if _norm(x) == sig and not _is_known(ctx, c_min, x, dd)]
+            if not hit:
+                c_min, out2, hit = c, impl_view, [(cl, d)]
             ctx.fail(c_min, hit[0][0], impl=out2, model=model_view if c_min is c else None, detail=hit[0][1])
         elif not fails and not agree:
             ctx.disagree(c, impl_view, model_view)
@@ -2152,6 +2546,112 @@ def random_seq_case(ctx):
     return {"kind": "seq", "source": source, "cols": cols, "tables": tables, "ops": ops}
 
 
+def exhaustive_reuse_cases():
+    """Every pair of conversions from a small alphabet on ONE argument object - a list, a tuple of three
+    tables (one of them empty) or a single table - followed by an unlimited conversion, each pair read one
+    after the other and interleaved.  Every conversion is judged against all the Arrow rows cut to its size."""
+    rows = seq_rows(3)
+    three = [[rows[:2]], [[]], [rows[2:]]]
+    one = [[rows[:1], rows[1:]]]
+    alphabet = [["from_arrow", None, None], ["from_arrow", 1, None], ["from_arrow", 2, None], ["from_arrow", 4, None],
+                ["from_arrow", None, 1], ["from_arrow", None, 0], ["DataFrame", None, None]]
+    last = ["from_arrow", None, None]
+    for container, tables in (("list", three), ("tuple", three), ("list", one), ("single", one)):
+        for a in alphabet:
+            for b in alphabet:
+                for order in REUSE_ORDERS:
+                    if container != "list" and order == "interleaved" and (a[2] is None and b[2] is None):
+                        continue  # (tuples and single tables cannot be modified: the sequential pairs cover them)
+                    yield {"kind": "reuse", "cols": SEQ_COLS, "tables": tables, "container": container,
+                           "convs": [a, b, last], "order": order}
+
+
+def reuse_corpus():
+    rows = seq_rows(6)
+    # the same list converted with every limit in turn, then without one, then as a frame
+    ladder = [["from_arrow", k, None] for k in range(1, 8)] + [["from_arrow", None, None], ["DataFrame", None, None]]
+    for container in ("list", "tuple"):
+        yield {"kind": "reuse", "cols": SEQ_COLS, "tables": [[rows[:1], rows[1:4]], [[]], [rows[4:]]],
+               "container": container, "convs": ladder, "order": "sequential"}
+        yield {"kind": "reuse", "cols": SEQ_COLS, "tables": [[rows[:1], rows[1:4]], [[]], [rows[4:]]],
+               "container": container, "convs": ladder[-4:], "order": "interleaved"}
+    # a retry after a conversion that was abandoned inside the second table
+    yield {"kind": "reuse", "cols": SEQ_COLS, "tables": [[rows[:2]], [rows[2:4]], [rows[4:]]], "container": "list",
+           "convs": [["from_arrow", None, 3], ["from_arrow", None, None], ["DataFrame", None, None]], "order": "sequential"}
+    # no table at all, only empty tables
+    yield {"kind": "reuse", "cols": SEQ_COLS, "tables": [], "container": "list",
+           "convs": [["from_arrow", None, None], ["from_arrow", 2, None], ["from_arrow", None, 1]], "order": "sequential"}
+    yield {"kind": "reuse", "cols": SEQ_COLS, "tables": [[[]], [[]]], "container": "list",
+           "convs": [["from_arrow", 1, None], ["DataFrame", None, None], ["from_arrow", None, None]], "order": "interleaved"}
+
+
+def reuse_two_argument_cases():
+    """Two argument objects with the SAME column names and another typing / nullability / width of decimal,
+    converted alternately: what a conversion says about its columns (and returns as rows) depends on the tables it
+    was given, not on what was converted before under the same names."""
+    rows_a = [[2**53 + 1 + i, "r%d" % i] for i in range(3)]
+    rows_b = [[7 + i, None if i == 1 else "%d.50" % i] for i in range(4)]
+    rows_c = [[20 + i, None if i == 0 else str(i)] for i in range(2)]
+    a = {"cols": [{"name": "id", "type": "int64", "nullable": False}, {"name": "v", "type": "string", "nullable": False}],
+         "tables": [[rows_a[:2]], [rows_a[2:]]]}
+    b = {"cols": [{"name": "id", "type": "int64"}, {"name": "v", "type": "decimal128(10,2)"}], "tables": [[rows_b]]}
+    c = {"cols": [{"name": "id", "type": "int64", "nullable": False}, {"name": "v", "type": "decimal128(38,0)"}],
+         "tables": [[rows_c[:1]], [[]], [rows_c[1:]]]}
+    b0 = {"cols": [{"name": "id", "type": "int64"}, {"name": "v", "type": "decimal128(10,0)"}],
+          "tables": [[[[1, "5"], [2, None]]]]}
+    for first, second in ((a, b), (b, a), (b, c), (c, b0), (b0, b)):
+        for container in ("list", "tuple"):
+            for order in REUSE_ORDERS:
+                yield {"kind": "reuse", "cols": first["cols"], "tables": first["tables"], "second": second,
+                       "container": container, "order": order,
+                       "convs": [["from_arrow", None, None, 0], ["from_arrow", None, None, 1], ["DataFrame", None, None, 0],
+                                 ["from_arrow", 2, None, 1], ["from_arrow", None, None, 0]]}
+
+
+def random_reuse_case(ctx):
+    rng = ctx.rng
+    ncols = rng.choice([1, 2, 2, 3])
+    types = ["int64"] + [rng.choice(REUSE_COLTYPES) for _ in range(ncols - 1)]
+    n = rng.choice([0, 1, 2, 3, 4, 5, 6, 8]) if rng.random() < 0.9 else rng.randint(9, 40)
+    cols = [{"name": rng.choice(["id", "a", "é", "x y", ""]) + str(j), "type": t} for j, t in enumerate(types)]
+    cols[0]["nullable"] = False
+    columns = [[2**53 + 1 + i for i in range(n)]]
+    for t in types[1:]:
+        columns.append([gen_cell(rng, t, rng.choice([0.0, 0.3, 1.0])) for _ in range(n)])
+    rows = [[columns[j][i] for j in range(ncols)] for i in range(n)]
+    tables = split_random(rng, rows, rng.choice([1, 2, 3, 4]))
+    container = rng.choice(["list", "list", "list", "tuple"] + (["single"] if len(tables) == 1 else []))
+    convs = []
+    for _ in range(rng.choice([2, 2, 3, 3, 4, 5])):
+        if rng.random() < 0.25:
+            cv = ["DataFrame", None, None]
+        else:
+            cv = ["from_arrow", rng.choice([None, None, 1, 2, n + 1, max(1, n), max(1, n - 1)]), None]
+        if rng.random() < 0.3:
+            cv[2] = rng.choice([0, 1, 2, max(0, n - 1), n])
+        convs.append(cv)
+    convs.append(["from_arrow", rng.choice([None, None, max(1, n)]), None])
+    case = {"kind": "reuse", "cols": cols, "tables": tables, "container": container, "convs": convs,
+            "order": rng.choice(REUSE_ORDERS)}
+    if container != "single" and rng.random() < 0.3:
+        # a second argument under the same column names: other kinds, other nullability, other rows
+        n2 = rng.choice([0, 1, 2, 3, 5])
+        types2 = ["int64"] + [rng.choice(REUSE_COLTYPES) for _ in range(ncols - 1)]
+        cols2 = [{"name": c["name"], "type": t} for c, t in zip(cols, types2)]
+        columns2 = [[100 + i for i in range(n2)]]
+        for j, t in enumerate(types2[1:], 1):
+            cells = [gen_cell(rng, t, rng.choice([0.0, 0.3])) for _ in range(n2)]
+            if not any(x is None for x in cells) and rng.random() < 0.5:
+                cols2[j]["nullable"] = False
+            columns2.append(cells)
+        rows2 = [[columns2[j][i] for j in range(ncols)] for i in range(n2)]
+        tables2 = split_random(rng, rows2, rng.choice([1, 2, 3]))
+        case["second"] = {"cols": cols2, "tables": tables2}
+        for cv in convs:
+            cv.append(rng.choice([0, 1]))
+    return case
+
+
 def big_cases(ctx):
     rng = ctx.rng
     out = [
@@ -2207,6 +2707,13 @@ SCHEMA_DIFFERS = [
      "cols_by_table": {"1": [{"name": "b", "type": "string"}, {"name": "a", "type": "int64"}]},
      "tables": [[[[1, "x"]]], [[["y", 2]]]]},
 ]
+
+
+def other_iterable_cases():
+    rows = split_rows(4)
+    for via in OTHER_ITERABLES:
+        for size in (None, 3):
+            yield {"kind": "iter", "cols": SPLIT_COLS, "tables": [[rows[:2]], [[]], [rows[2:]]], "size": size, "via": via}
 
 
 def ext_type_cases():
@@ -2289,7 +2796,7 @@ def run(ctx):
 
     marks["before_run"] = round(ctx.budget_s - ctx.time_left(), 2)
     if ctx.tier == "quick":
-        ctx.budget_s = max(ctx.budget_s, 58)  # the exhaustive families take ~30 s; leaves ~20 s for the random ones
+        ctx.budget_s = max(ctx.budget_s, 64)  # the exhaustive families take ~35 s; leaves ~25 s for the random ones
     _batched(ctx, CORPUS)
     # several columns in one schema first: a failure that needs two different decimal types (or two uses of
     # anything cached) is then met in a case that carries both, and its replay fails on its own
@@ -2298,10 +2805,15 @@ def run(ctx):
     _batched(ctx, ext_type_cases())
     _batched(ctx, many_batches_cases())
     _batched(ctx, SCHEMA_DIFFERS)
+    _batched(ctx, other_iterable_cases())
     mark("corpus+per-type+ext+many-batches")
     _batched(ctx, seq_corpus())
     n_seq = _batched(ctx, exhaustive_seq_cases())
     mark("seq-exhaustive")
+    _batched(ctx, reuse_corpus())
+    _batched(ctx, reuse_two_argument_cases())
+    n_reuse = _batched(ctx, exhaustive_reuse_cases())
+    mark("reuse-exhaustive")
     nmax, kmax = ctx.scale((6, 4), (6, 4))
     n_split = _batched(ctx, exhaustive_split_cases(nmax, kmax))
     mark("split-exhaustive")
@@ -2316,24 +2828,35 @@ def run(ctx):
              "(%d cases); every Orso type, every ARRAY element type, every DECIMAL (p,s) with 0<=s<=p<=38 (%d cases); "
              "a catalogue of %d Arrow fields; _RowsIterator driven directly with batch sizes 1, 2, 3, 7 x every limit over every "
              "split of 0..4(5) rows into 1..3(4) tables (%d cases); every pair of calls from a 10-call alphabet on one frame "
-             "x 4 kinds of frame, each followed by an unlimited conversion (%d cases); then random"
-             % (nmax, kmax, n_split, n_type, n_field, n_itb, n_seq))
+             "x 4 kinds of frame, each followed by an unlimited conversion (%d cases); every pair of conversions from a "
+             "7-conversion alphabet on ONE list / tuple / single table, sequential and interleaved, followed by an unlimited "
+             "conversion, the argument compared afterwards (%d cases); then random"
+             % (nmax, kmax, n_split, n_type, n_field, n_itb, n_seq, n_reuse))
     _batched(ctx, big_cases(ctx), n=2)
     mark("big")
     n_iter, n_rt = ctx.scale((1500, 700), (30000, 12000))
+    # every random family gets its share of what is left of the budget (the first one must not use it up)
+    rem = max(ctx.time_left(), 1.0)
     done = 0
-    while done < n_iter and ctx.time_left() > 8:
+    while done < n_iter and ctx.time_left() > max(8, 0.30 * rem):
         k = min(300, n_iter - done)
         evaluate(ctx, [random_iter_case(ctx, quiet_known=(i % 2 == 0), ext=(i % 5 == 4)) for i in range(k)])
         done += k
     mark("random-iter")
     n_seq_r = ctx.scale(400, 8000)
     done = 0
-    while done < n_seq_r and ctx.time_left() > 6:
+    while done < n_seq_r and ctx.time_left() > max(6, 0.18 * rem):
         k = min(200, n_seq_r - done)
         evaluate(ctx, [random_seq_case(ctx) for _ in range(k)])
         done += k
     mark("random-seq")
+    n_reuse_r = ctx.scale(300, 6000)
+    done = 0
+    while done < n_reuse_r and ctx.time_left() > max(5, 0.06 * rem):
+        k = min(150, n_reuse_r - done)
+        evaluate(ctx, [random_reuse_case(ctx) for _ in range(k)])
+        done += k
+    mark("random-reuse")
     done = 0
     while done < n_rt and ctx.time_left() > 3:
         k = min(300, n_rt - done)
@@ -2341,6 +2864,7 @@ def run(ctx):
         done += k
     mark("random-roundtrip")
     flush_pending(ctx)
+    settle_departures(ctx)
     ctx.note("seconds_per_section", marks)
 
 
@@ -2351,17 +2875,20 @@ def intensify(ctx):
         evaluate(ctx, [random_iter_case(ctx, quiet_known=True) for _ in range(300)])
         evaluate(ctx, [random_roundtrip_case(ctx, quiet_known=True) for _ in range(200)])
         evaluate(ctx, [random_seq_case(ctx) for _ in range(150)])
+        evaluate(ctx, [random_reuse_case(ctx) for _ in range(100)])
     _batched(ctx, exhaustive_type_cases(True))
     _batched(ctx, exhaustive_field_cases())
     _batched(ctx, schema_cases())
     evaluate(ctx, [random_schema_case(ctx) for _ in range(300)])
     flush_pending(ctx)
+    settle_departures(ctx)
 
 
 def replay(ctx, case):
     if not valid_case(case):
         raise InfraError("stored case is not a valid C11 case: %r" % (case,))
     evaluate(ctx, [case])
+    settle_departures(ctx)
 
 
 # --------------------------------------------------------------------------- known findings
